@@ -6905,6 +6905,14 @@ func (c *linkerContext) generateIsolatedHash(chunk *chunkInfo, channel chan []by
 	hashWriteLengthPrefixed(hash, chunk.outputSourceMap.Mappings)
 	hashWriteLengthPrefixed(hash, chunk.outputSourceMap.Suffix)
 
+	// Also include the external legal comments in the hash. They are written to
+	// a file that is named after the chunk, so the hash must change if they
+	// change even if the chunk data doesn't change. Otherwise two builds could
+	// generate a file with the same name but with different contents.
+	if len(chunk.externalLegalComments) > 0 {
+		hashWriteLengthPrefixed(hash, chunk.externalLegalComments)
+	}
+
 	// Store the hash so far. All other chunks that import this chunk will mix
 	// this hash into their final hash to ensure that the import path changes
 	// if this chunk (or any dependencies of this chunk) is changed.
